@@ -27,6 +27,8 @@ type replWorkload struct {
 	Sparse          bool  // cut positions on a coarse grid only (long streams)
 	CutStride       int   // with Sparse: distance between cut positions (default 1531)
 	RestartLeaderAt int64 // >0: the leader is killed and started again on its directory at this instant (its ring is then empty)
+	HoldStarted     int64 // >0: of the follower's first connection only the 64-byte SYNC request reaches the leader until this instant (the follower's "started" frame is late)
+	Resume          bool  // with RestartLeaderAt: the follower had synced everything before, is restarted with the leader and resumes by position
 }
 
 func c09Workloads(quick bool) []replWorkload {
@@ -53,6 +55,14 @@ func c09Workloads(quick bool) []replWorkload {
 		// the leader is restarted (empty ring, everything in files) before an empty follower asks for the full transfer
 		{Name: "leader-restart-then-join", Steps: base, RestartLeaderAt: 2500 * ms, JoinAt: 3800 * ms, EndAt: 30 * sec},
 	}
+	// the leader is restarted (empty ring); an empty follower asks for the full transfer, its "started" frame is
+	// late, and meanwhile more records are committed than the ring has room for at its initial size
+	late := append([]TStep{}, base[:3]...)
+	for i := 0; i < 40; i++ {
+		late = append(late, at(4200*ms+int64(i)*10*ms, z(hapi.Cmd{Type: 1, Req: byte(20 + i), Key: byte(30 + i), Id: 1, Expried: 500})))
+	}
+	ws = append(ws, replWorkload{Name: "empty-ring-started-frame-late", Steps: late, RestartLeaderAt: 2500 * ms, JoinAt: 3800 * ms, HoldStarted: 8 * sec, EndAt: 30 * sec, Sparse: true, CutStride: 401,
+		LeaderMod: func(c *hapi.Config) { c.RingSz = 1024; c.RingMaxSz = 64 << 20 }})
 	// a slow follower: 600 records become readable at once (more than the follower's 256 receive buffers)
 	ws = append(ws, replWorkload{Name: "burst-of-600-records", Steps: base, JoinAt: 2500 * ms, EndAt: 40 * sec, Burst: 600, BurstAt: 12 * sec, Sparse: true})
 	// values larger than the sender's 4096-byte batch buffer, right behind small records about the same key: a
@@ -123,6 +133,9 @@ func runRepl(w *replWorkload, cut1, cut2 int) replOutcome {
 			case 1:
 				first = l
 				l.BtoA.CutAt = cut1
+				if w.HoldStarted > 0 {
+					l.AtoB.HoldAfter = 64
+				}
 			case 2:
 				l.BtoA.CutAt = cut2
 			}
@@ -203,6 +216,12 @@ func runRepl(w *replWorkload, cut1, cut2 int) replOutcome {
 		}
 		if w.Burst > 0 {
 			burst()
+		}
+		if w.HoldStarted > 0 {
+			vrt.AdvanceTo(w.HoldStarted)
+			if first != nil {
+				first.AtoB.HoldAfter = 0
+			}
 		}
 		vrt.AdvanceTo(w.EndAt)
 		out.Leader = holdsOnly(leader.Snapshot())
